@@ -223,6 +223,7 @@ def g_multi(draw):
     c = g_case(draw, max_rows=30)
     c["K"] = gen.integer(draw, 2, 6)
     c["dask"] = gen.boolean(draw)
+    c["isolate"], c["order_seed"] = gen.boolean(draw), gen.integer(draw, 0, 999)
     c["chunks"] = gen.composition(draw, c["X"].shape[0], max_parts=5)
     return c
 
@@ -245,12 +246,15 @@ def c_multi(ctx, case):
             ctx.discard("component with 0 < n < 1e-6")
     ctx.note(p["C"] >= 2 and any(upd) and K >= 2, "upd:%d%d%d" % tuple(int(u) for u in upd),
              "dask" if case["dask"] else "numpy")
+    from vf import sched
+
     data = sut.dask_rows(X, case["chunks"]) if case["dask"] else X
     _, g = map_machine(case, K)
-    g.fit(data)
     _, h = map_machine(case, 1)
-    for _ in range(K):
-        h.fit(data)
+    with sched.owned("random", int(case.get("order_seed", 0)), bool(case["dask"] and case.get("isolate", False))):
+        g.fit(data)
+        for _ in range(K):
+            h.fit(data)
     sc = float(max(np.abs(X).max(), np.abs(p["means"]).max()))
     for name, m in (("fit(cap=K)", g), ("K resumed fits", h)):
         w, mu, var = sut.params_of(m)
